@@ -535,6 +535,10 @@ DEF_LITS = [("u8",            "7",           "7u8",                         True
             ("Option<bool>",  "true",        "Some(true)",                  False),
             ("Option<u8>",    "0",           "Some(0u8)",                   False),
             ("crate::m::Off", "-9",          "-9i64",                       True),    # type alias: not spelled as a primitive -> Into, sign must survive
+            ("crate::m::Num", "7u8",         "crate::m::Num::U8(7)",        False),   # several From<integer> impls: the literal's suffix selects one
+            ("crate::m::Num", "300u16",      "crate::m::Num::U16(300)",     False),
+            ("crate::m::Num", "5",           "crate::m::Num::I32(5)",       False),
+            ("crate::m::Num", "-6i32",       "crate::m::Num::I32(-6)",      False),
             ("crate::m::Off", "9",           "9i64",                        True),
             ("crate::m::Flt", "-2.5",        "-2.5f64",                     False),
             ("crate::m::Flt", "3",           "3.0f64",                      False),
@@ -550,6 +554,10 @@ def def_field(name, k, form, idx):
     """k >= 0: literal DEF_LITS[k]; k < 0: no attribute, type DEF_NONE[-k-1]"""
     if k >= 0:
         ty, src, exp, vok = DEF_LITS[k % len(DEF_LITS)]
+        if src.startswith("-") and ty == "crate::m::Num":
+            # `p(-6i32)` reaches the macro as a unary expression and gets no Into: refused by rustc on the pinned tree
+            # (a compile-time refusal, C01; the `p = -6i32` forms arrive as a signed literal and convert)
+            form = [0, 1, 2, 1, 2][form % 5]
         sp = ["Default = %s" % src, "Default(expression = %s)" % src, "Default(expr = %s)" % src,
               "Default(expression(%s))" % src, "Default(expr(%s))" % src][form % 5]
         return Field(name, ty, attrs=[sp], default={"src": src, "expected": exp, "verus": vok})
@@ -2097,6 +2105,16 @@ def wide(prop):
                 P = Program(pid(), "struct", "S", [Variant(None, shape, fs)], ["Deref"], focus={"Deref"}, note="&mut designated field: struct %s n=%d deref@%d" % (shape, n, dm))
                 P.tags["no_verus"] = "&'static mut field: Kani on the concrete layout"
                 out.append(P)
+        # enums whose designated fields are references: in every variant / in some variants only (Target is the referent either way)
+        for rty, muts in (("&'static u8", False), ("&'static mut u8", True)):
+            for allref in (True, False):
+                vs = [Variant("V0", "tuple", [Field(None, rty, deref={"mark": True}, deref_mut={"mark": True})]),
+                      Variant("V1", "named", [Field("a", "u8", deref={}, deref_mut={}), Field("b", rty if allref else "u8", attrs=["Deref"] + (["DerefMut"] if muts else []), deref={"mark": True}, deref_mut={"mark": True})]),
+                      Variant("V2", "tuple", [Field(None, rty, attrs=["Deref"] + (["DerefMut"] if muts else []), deref={"mark": True}, deref_mut={"mark": True}), Field(None, "u8", deref={}, deref_mut={}), Field(None, "u8", deref={}, deref_mut={})])]
+                traits = ["Deref", "DerefMut"] if muts else ["Deref"]
+                P = Program(pid(), "enum", "E", vs, traits, focus=set(traits), note="enum with reference designated fields (%s) in %s variants" % (rty, "all" if allref else "some"))
+                P.tags["no_verus"] = "reference fields: Kani on the concrete layout"
+                out.append(P)
         # PhantomData (and other non-target) fields declared before the designated field: positions are declaration positions
         PH = "core::marker::PhantomData<u16>"
         for shape in ("tuple", "named"):
@@ -2175,6 +2193,35 @@ def wide(prop):
         P = Program(pid(), "enum", "E", vs, ["Hash"], focus={"Hash"}, note="258-variant enum (variant positions beyond one byte)")
         P.tags["no_verus"] = "258 x 258 case split of the injectivity lemma exceeds Z3's resource limit; decided by Kani (loop-free, full domain)"
         out.append(P)
+
+    # variants that are field-less but not unit variants: `V()` and `V {}` (their arms are built by the tuple / named
+    # templates with nothing in them), next to a unit variant and variants with fields
+    def empties(group):
+        sem = {"debug": {"ignore": False, "key": None, "method": None}}.get(group, {})
+        return [Variant("V0", "tuple", []), Variant("V1", "named", []), Variant("V2", "tuple", [Field(None, "u8", **{group: dict(sem)})]),
+                Variant("V3", "unit", []), Variant("V4", "named", [Field("a", "u8", **{group: dict(sem)}), Field("b", "u8", **{group: dict(sem)})])]
+    if prop == "C02":
+        out.append(Program(pid(), "enum", "E", empties("eq"), ["PartialEq"], focus={"PartialEq"}, note="wide: empty tuple / empty named variants"))
+    if prop == "C03":
+        for md in ("both", "po"):
+            out.append(ord_program(pid(), "enum", "E", empties("ord"), md, [], 0, "wide: empty tuple / empty named variants mode=%s" % md))
+    if prop == "C05":
+        out.append(Program(pid(), "enum", "E", empties("hash"), ["Hash"], focus={"Hash"}, note="wide: empty tuple / empty named variants"))
+    if prop == "C07":
+        for cp in (False, True):
+            vs = empties("clone")
+            if not cp:
+                vs[2].fields[0].attrs = ["Clone(method = crate::m::clone_a)"]; vs[2].fields[0].sem["clone"] = {"method": "crate::m::clone_a"}
+            out.append(clone_program(pid(), "enum", "E", vs, [], cp, "wide: empty tuple / empty named variants copy=%s" % cp, 1))
+        vs = empties("clone")
+        vs[2].fields[0].attrs = ["Clone(method = crate::m::clone_a)"]; vs[2].fields[0].sem["clone"] = {"method": "crate::m::clone_a"}
+        out.append(clone_program(pid(), "enum", "E", vs, [], True, "wide: empty tuple / empty named variants copy + method", 1))
+    if prop == "C06":
+        vs = empties("debug")
+        for v in vs:
+            v.sem["debug"] = {"name": True, "named_field": None}
+        out.append(Program(pid(), "enum", "E", vs, ["Debug"], focus={"Debug"}, note="wide: empty tuple / empty named variants",
+                           debug={"name": "default", "named_field": None}))
 
     return out
 
@@ -2258,7 +2305,7 @@ def bound_twins(programs, limit=6, genericize=False, suffix="b"):
     out = []
     k = 0
     cands = [P for P in programs if P.canary_of is None and P.kind != "union" and P.type_attrs is None
-             and not P.pid.endswith(("u", "a")) and (P.generics or genericize)]
+             and not P.pid.endswith(("u", "a", "s")) and (P.generics or genericize)]
     # spread over the family (structs first, enums later in every family)
     picked = []
     for kind in ("struct", "enum"):
@@ -2318,6 +2365,9 @@ def bound_twins(programs, limit=6, genericize=False, suffix="b"):
         Q.traits = traits
         if form == 4:
             Q.generics = ["%s: %s" % (g, " + ".join(dedup_list(need))) for g in Q.generics]
+            if any(x in need for x in ("core::cmp::Eq", "core::cmp::Ord")):
+                # the bound now sits on the declaration: S<f32> would be ill-formed
+                Q.inst = {k: ("u8" if v == "f32" else v) for k, v in Q.inst.items()}
         Q.note = "explicit bound twin (form %d) of %s: %s" % (form, P.pid, P.note)
         out.append(Q)
     return out
@@ -2350,6 +2400,49 @@ def dedup_list(xs):
         if x not in o:
             o.append(x)
     return o
+
+
+SELF_ADV = """#[allow(dead_code, unreachable_code, unused_variables)]
+impl%s %s %s {
+    pub fn eq(&self, _o: &Self) -> bool { panic!("inherent eq of the educed type called") }
+    pub fn ne(&self, _o: &Self) -> bool { panic!("inherent ne of the educed type called") }
+    pub fn partial_cmp(&self, _o: &Self) -> Option<core::cmp::Ordering> { panic!("inherent partial_cmp of the educed type called") }
+    pub fn cmp(&self, _o: &Self) -> core::cmp::Ordering { panic!("inherent cmp of the educed type called") }
+    pub fn lt(&self, _o: &Self) -> bool { panic!("inherent lt of the educed type called") }
+    pub fn le(&self, _o: &Self) -> bool { panic!("inherent le of the educed type called") }
+    pub fn gt(&self, _o: &Self) -> bool { panic!("inherent gt of the educed type called") }
+    pub fn ge(&self, _o: &Self) -> bool { panic!("inherent ge of the educed type called") }
+    pub fn hash<HH9: core::hash::Hasher>(&self, _h: &mut HH9) { panic!("inherent hash of the educed type called") }
+    pub fn clone(&self) -> Self { panic!("inherent clone of the educed type called") }
+    pub fn clone_from(&mut self, _s: &Self) { panic!("inherent clone_from of the educed type called") }
+    pub fn default() -> Self { panic!("inherent default of the educed type called") }
+    pub fn fmt(&self, _f: &mut core::fmt::Formatter<'_>) -> core::fmt::Result { panic!("inherent fmt of the educed type called") }
+}
+"""
+
+
+def selfadv_twins(programs, every=5, limit=12):
+    """twins whose EDUCED TYPE ITSELF has inherent methods named like the trait methods (all panic): generated code
+    that reaches a trait method of Self through method-call syntax (`self.cmp(other)`, `source.clone()`,
+    `Self::default()`) silently resolves to them; every call of one is a failed check"""
+    out = []
+    k = 0
+    for P in programs:
+        if len(out) >= limit:
+            break
+        if P.canary_of is not None or P.kind == "union" or P.pid[-1] in "uab":
+            continue
+        k += 1
+        if k % every:
+            continue
+        Q = copy.deepcopy(P)
+        Q.tags.pop("frozen_src", None)
+        Q.pid = P.pid + "s"
+        g = "<" + ", ".join(Q.generics) + ">" if Q.generics else ""
+        Q.tags["pre_items"] = Q.tags.get("pre_items", "") + SELF_ADV % (g, Q.ty_generic(), ("where " + Q.where) if Q.where else "")
+        Q.note = "self-adversarial twin (the educed type has panicking inherent eq/cmp/hash/clone/default/fmt) of " + P.pid + ": " + P.note
+        out.append(Q)
+    return out
 
 
 def adv_twins(programs, every=3):
